@@ -2,6 +2,7 @@ import CgtModel.Report
 import CgtModel.Spec
 import CgtModel.Lemmas.Conserve
 import CgtModel.Lemmas.LegWindow
+import CgtModel.Lemmas.SpecEquiv
 import CgtModel.Lemmas.Sorted
 import CgtModel.Props.C02
 /-! # C01 — Same Day, then 30-day (earliest first), then Section 104
@@ -10,9 +11,16 @@ Full statement: for every accepted ledger, rule / quantity / acquisition date of
 proceeds, gain without cost events) equal an independent exact evaluation of s105(1), s106A, s104; an
 acquisition on D+30 is in the window, one on D+31 or on/before D is not.
 
-`def C01_statement` below states that equality against `Spec.identifyAll`. It is **not proved** here
-(the simulation proof between the single pass with carried claims and Spec's three passes is not
-done); what is proved about the model of the code is the priority structure the statute prescribes:
+`def C01_statement` below states that equality against `Spec.identifyAll` at ledger level. Proved:
+`C01_matcher_is_statute` — for one security's day list (strictly increasing dates — every ledger's
+are —, no capital returns / accumulations, at most one SELL line per day after merging), the matcher
+(cost pre-pass + single main pass with carried claims) produces exactly the legs — rule, quantity,
+allowable cost, acquisition date, in order — and the closing pool (quantity and cost) that `Spec`'s
+claims matrix (pass 2) and pool walk (pass 3) produce on the same days (`Lemmas/SpecEquiv.lean`: the
+look-ahead of a disposal is its row of the matrix; the carried claims are the column sums; the day
+step is the walk step). What remains between this and `C01_statement` is the data step: that
+`Spec.table t l` (built by insertion from the raw lines) is `daysOf t (preprocess l)` seen through
+`ofDay` — both are evaluated on every run. Also proved, the priority structure the statute prescribes:
 
 * `window_pinned`, `C01_window` — a 30-day leg's acquisition lies at most `bnbWindowDays = 30` days
   after the disposal, and strictly after it when the following days are later days; a day at exactly
@@ -287,5 +295,17 @@ theorem C01_legs_in_window (l : List Tx) (rs : List TickerResult) (h : run bnbWi
     obtain ⟨d0, hd0, rfl⟩ := hd
     exact ⟨d0, hd0, by have : bnbWindowDays = 30 := by decide
                        rw [this] at hwin; exact hwin⟩
+
+/-- **C01 for one security**: the matcher model is the statutory evaluation. For a day list with
+    strictly increasing dates, non-negative quantities, no cost events and at most one SELL line per
+    day, an accepted run's legs (rule, quantity, allowable cost, acquisition date, in order) and
+    closing pool (quantity, cost) are exactly those of `Spec`'s passes 2 and 3 on the same days. -/
+theorem C01_matcher_is_statute (t : String) (ds : List Day) (hs : ds.Pairwise (fun a b => a.ord < b.ord))
+    (hok : daysOk ds) (hne : noEvents ds) (hone : ∀ d ∈ ds, d.sells.length ≤ 1)
+    (pool : Option Pool) (legs : List Leg) (h : runTicker t bnbWindowDays ds = .ok (pool, legs)) :
+    let sp := identifyTbl bnbWindowDays (ds.map ofDay)
+    sp.2.1 = poolQ' pool ∧ sp.2.2 = poolC' pool ∧
+    legs.map legView = sp.1.flatMap (fun dsp => dsp.legs.map slegView) :=
+  runTicker_eq_spec t bnbWindowDays ds hs hok hne hone pool legs h
 
 end Cgt.C01
